@@ -45,6 +45,8 @@ def run(ck):
     ck.assumptions += ['rows whose exact projection is within d*2^-20*(sum|x_i v_i|+|b|) of a threshold are excluded (counted in `skipped`)',
                        'torch.sort over distinct int64 keys sorts']
     ck.check_theorems()
+    from harness import splitarith
+    splitarith.check_translation(ck)
 
     rng = np.random.default_rng(ck.seed + 101)
     nfits = ck.n(8, 60)
